@@ -128,6 +128,10 @@ TRANSLATORS["C05"] += ("; harness/py2v_hdrwrites.py (census of the places "
 TRANSLATORS["C10"] += ("; harness/py2v_reads.py (census of the places that "
                        "consume an input stream -> gen/ReadSitesGen.v, "
                        "judged by model/ReadSites.v)")
+TRANSLATORS["C17"] += ("; harness/py2v_config.py + coq/lib/PyConfig.v (the "
+                       "configuration literal, getters and setters of "
+                       "Application and the census of configuration writers "
+                       "-> gen/ConfigGen.v)")
 TRANSLATORS["C17"] += ("; the same plugin lists the request-time methods of "
                        "Application and their writes through self")
 
